@@ -118,6 +118,25 @@ def run_more(ctx):
                 dv = cdev(got, ref)
                 ctx.dev("more models: LASS", dv, 1e-10)
                 ctx.check(MON, dv < 1e-10, lambda: dict(desc, dev=dv, lib=got[:3], ref=ref[:3]), mechanism=mech)
+                # the symbolic denominator offered for pole searches
+                try:
+                    import sympy as sym
+
+                    from tf_pwa.amp.core import Particle as _P
+
+                    var = R.get_sympy_var()
+                    expr = R.get_sympy_dom(*var)
+                    numv = [float(np.asarray(x)) for x in R.get_num_var()]
+                    pts = m[::8]
+                    vals = np.array([complex(sym.N(expr.subs(dict(zip(var[1:], numv))).subs({var[0]: float(x)}), 30)) for x in pts])
+                    want = 1 / got[::8]
+                    dvs = cdev(vals, want)
+                    from .c15 import KF_INHERITED_DOM
+
+                    ctx.check("sympy denominator == 1/shape", dvs < 1e-8, lambda: dict(desc, dev=dvs, m=pts[:3], sympy=vals[:3], one_over_shape=want[:3]),
+                              mechanism=KF_INHERITED_DOM if type(R).get_sympy_dom is _P.get_sympy_dom else "sympy denominator: LASS")
+                except NotImplementedError:
+                    ctx.count("sympy_dom_not_provided:LASS")
             # -------------------------------------------------------------------------------------------------- FlatteGen / Flatte2
             elif model in ("FlatteGen", "Flatte2"):
                 opts = FLATTE_OPTS[(rnd + (4 if model == "Flatte2" else 0)) % len(FLATTE_OPTS)]  # the quick tier (4 rounds) meets every option set
